@@ -377,6 +377,27 @@ func c01Concurrent(ev *vlib.Evidence, driver string, idx int) {
 			}
 		}(ci, c)
 	}
+	// hosts send their own keep-alives at the same time (they move nothing, but
+	// they touch the same node records the billing writes to)
+	for _, h := range lw.hosts {
+		wg.Add(1)
+		go func(h *vlib.Identity) {
+			defer wg.Done()
+			for k := 0; k < rounds; k++ {
+				w.Update(lw.conns[h.NodeID].AgentSide, h, nil, uint64(k))
+			}
+		}(h)
+	}
+	// wallets withdraw while their nodes are being credited
+	for _, wal := range lw.wallets {
+		wg.Add(1)
+		go func(wal *vlib.Identity) {
+			defer wg.Done()
+			for k := 0; k < 2; k++ {
+				w.Signed(w.Local, wal, wal.Wallet, "pool_withdraw", nil)
+			}
+		}(wal)
+	}
 	// wallet linking in parallel
 	for wi, wal := range lw.wallets {
 		wg.Add(1)
@@ -394,8 +415,18 @@ func c01Concurrent(ev *vlib.Evidence, driver string, idx int) {
 	desc := fmt.Sprintf("conc %s price=%s hosts=%d clients=%d wallets=%d rounds=%d ok=%d err=%d", driver, o.price, o.nh, o.nc, o.nw, rounds, okUpdates, errUpdates)
 	ev.Count("concurrent-updates-ok", int64(okUpdates))
 	ev.Count("concurrent-updates-err", int64(errUpdates))
-	if msg, ok := lw.checkLedger(new(big.Int)); !ok {
-		ev.Violate("concurrent:"+driver+":not-zero-sum", map[string]interface{}{"problem": msg, "case": desc, "errors": errKinds})
+	// only successful withdrawals change the sum, and only by the credit they settled
+	wantTotal := new(big.Int)
+	settled := 0
+	for _, se := range w.SettleLog() {
+		if se.Err == "" {
+			wantTotal.Sub(wantTotal, se.Amount) // no deposits in this phase: paid amount = settled credit
+			settled++
+		}
+	}
+	ev.Count("concurrent-withdrawals-settled", int64(settled))
+	if msg, ok := lw.checkLedger(wantTotal); !ok {
+		ev.Violate("concurrent:"+driver+":not-zero-sum", map[string]interface{}{"problem": msg, "case": desc, "errors": errKinds, "withdrawals_settled": settled})
 	}
 	ev.Case(desc, okUpdates > 0)
 	if idx < 1 {
